@@ -64,6 +64,17 @@ thread_local! {
     pub static QUIET: std::cell::Cell<u32> = const { std::cell::Cell::new(0) };
 }
 
+thread_local! {
+    /// location ("file:line") and message of the last panic on this thread, recorded by the hook
+    pub static LAST_PANIC: std::cell::RefCell<(String, String)> = std::cell::RefCell::new((String::new(), String::new()));
+}
+
+/// does a panic location lie in the code under test (the glam sources of whatever tree is built)
+/// rather than in the harness, its dependencies or the standard library?
+pub fn location_under_test(loc: &str) -> bool {
+    !loc.is_empty() && !loc.contains("harness/src") && !loc.contains("/.cargo/") && !loc.contains("/rustc/") && !loc.contains("/library/") && !loc.contains("/hdev/src")
+}
+
 /// run `f`, converting a panic into Err(message); panics inside are not printed
 pub fn catch<R>(f: impl FnOnce() -> R) -> Result<R, String> {
     QUIET.with(|q| q.set(q.get() + 1));
